@@ -65,7 +65,8 @@ theorem quiescent_final {c : Cfg} (hW : 0 < c.W) (hn : 1 ≤ c.n) (ho : EMIT_THR
     rcases hrd with hd' | ⟨hi', _, hz⟩
     · have := ni.rdn.1 hd'; rw [this] at he; cases he
     · have : inputAlive s = 0 := by
-        simp only [inputAlive, hfil, hhr, hi']; simp
+        unfold inputAlive
+        rw [hfil, hhr, hi']; simp
       omega
   -- (P) the parser could run
   have hP : s.ptok = true → s.pdone = false → 1 ≤ s.wu → False := by
